@@ -1,7 +1,7 @@
 CONSTANTS
   SplitBits = 1
   MaxNodes = 28
-  MaxT = 17
+  MaxT = 13
   NExp = 3
   MaxLevel = 100000
   CovPrint = FALSE
